@@ -39,6 +39,11 @@ def gen_case(rng, idx):
   if rng.random() < 0.08 and n >= 2:       # an exact tie in the mean
     a, b = ids[0], ids[1]
     rows = [r for r in rows if r[0] != b] + [(b, d, v) for (g, d, v) in rows if g == a]
+  rs = random.Random(idx * 7919 + 5)
+  if rs.random() < 0.15:
+    # net changes: every level is shifted down so that the sum of the geo means is negative (or only some geos are negative)
+    shift = rs.choice([600.0, 300.0, 120.0])
+    rows = [(g, d, v - shift) for g, d, v in rows]
   rng.shuffle(rows)
   mode = rng.choice(['none', 'equal', 'subset', 'superset-ok', 'superset-bad', 'mixed-ok', 'mixed-bad'])
   elig = None
